@@ -62,9 +62,17 @@ fn cfg_strat() -> BoxedStrategy<OptCfg> {
         .boxed()
 }
 
+/// inputs that share every parameter value although they are different crystals: one group, shapes of the same
+/// enclosing radius (regular polygons, the circle), so that the from_group states differ in nothing the optimiser moves
+fn sibling_inputs() -> BoxedStrategy<Vec<Input>> {
+    (0usize..7, proptest::collection::vec(prop_oneof![3 => (3usize..=12).prop_map(|sides| (0u8, ShapeSpec::Polygon { sides })), 1 => Just((1u8, ShapeSpec::Circle))], 2..=4))
+        .prop_map(|(group, v)| v.into_iter().map(|(kind, shape)| Input { group, kind, shape }).collect())
+        .boxed()
+}
+
 fn batch_strat(_: &Ctx) -> BoxedStrategy<BatchCase> {
     (
-        proptest::collection::vec(input_strat(), 1..=4),
+        prop_oneof![2 => proptest::collection::vec(input_strat(), 1..=4), 1 => sibling_inputs()],
         proptest::collection::vec((any::<u16>(), cfg_strat()), 4..=24),
         proptest::collection::vec(prop_oneof![4 => 1usize..=16, 1 => Just(2usize), 1 => Just(16usize)], 1..=3),
         proptest::collection::vec(any::<u16>(), 24),
